@@ -259,4 +259,7 @@ def run(chk, tier):
                    "push guarded by `items.len() == item && action.is_constructive()`", txt[:200], loc=f"{ha['loc']['f']}:{n[1]}")
     chk.note("nested navigation in apply/entry_at_mut does not reset the recorded length of intermediate items: documented limitation of "
              "ExplicitLengthSqItemStrategy::NoChange (parser/src/dataset/write.rs), not claimed")
+    # Push* actions delegate to PrimitiveValue::extend_*: "push appends" needs every arm there to keep the existing values first
+    from . import c11
+    c11.extend_appends(chk, fx, "push-appends")
     chk.undecided.append("equivalence with a reference model over arbitrary operation sequences; write/read-back of the resulting objects")
